@@ -8,6 +8,8 @@
 //!   C <term> | Kron <term> <term>
 //!   Comp <name> <nbits> <k> { <term> <m> <bit>*m }*k
 //!   Loop <label> <iters> <name> <nbits> <k> { <term> <m> <bit>*m }*k
+//!   Inc2 | Inc3 | Inc4 | Mix <hex>      USER-DEFINED gates (not library gates): structs that only provide
+//!                                       description/nr_affected_bits/matrix, so that every apply route is the trait's default
 use q1tsim::export::{CircuitGate, CQasm, Latex, LatexExportState, OpenQasm};
 use q1tsim::gates::*;
 use q1tsim::stabilizer::PauliOp;
@@ -82,6 +84,54 @@ impl Latex for Dyn
     }
 }
 
+// ------------------------------------------------------------------------------------------------
+// user-defined gates: only `description`, `nr_affected_bits` and `matrix` are provided (the documented minimum, see the
+// "Custom gates" section of the crate documentation), every `apply*` method is the DEFAULT of the `Gate` trait; the export
+// traits are the empty default impls.  Both matrices are NOT symmetric, so a kernel that applies the transpose shows.
+
+/// Cyclic increment |k> -> |k+1 mod 2^n> on n qubits (the first qubit is the most significant bit of k).
+#[derive(Clone)]
+pub struct UInc { pub n: usize, pub desc: String }
+impl UInc { pub fn new(n: usize) -> Self { UInc { n, desc: format!("Inc{}", n) } } }
+impl Gate for UInc
+{
+    fn cost(&self) -> f64 { 1.0 }
+    fn description(&self) -> &str { &self.desc }
+    fn nr_affected_bits(&self) -> usize { self.n }
+    fn matrix(&self) -> q1tsim::cmatrix::CMatrix
+    {
+        let dim = 1usize << self.n;
+        let mut m = q1tsim::cmatrix::CMatrix::zeros((dim, dim));
+        for k in 0..dim { m[[(k + 1) % dim, k]] = q1tsim::cmatrix::COMPLEX_ONE; }
+        m
+    }
+}
+impl OpenQasm for UInc {}
+impl CQasm for UInc {}
+impl Latex for UInc {}
+
+/// The example gate of the crate documentation: rotates |01> and |10> into each other,
+/// [[1,0,0,0],[0,cos a,-sin a,0],[0,sin a,cos a,0],[0,0,0,1]].
+#[derive(Clone)]
+pub struct UMix { pub alpha: f64 }
+impl Gate for UMix
+{
+    fn cost(&self) -> f64 { 1.0 }
+    fn description(&self) -> &str { "Mix" }
+    fn nr_affected_bits(&self) -> usize { 2 }
+    fn matrix(&self) -> q1tsim::cmatrix::CMatrix
+    {
+        let o = q1tsim::cmatrix::COMPLEX_ONE;
+        let z = q1tsim::cmatrix::COMPLEX_ZERO;
+        let c = self.alpha.cos() * o;
+        let s = self.alpha.sin() * o;
+        ndarray::array![[o, z, z, z], [z, c, -s, z], [z, s, c, z], [z, z, z, o]]
+    }
+}
+impl OpenQasm for UMix {}
+impl CQasm for UMix {}
+impl Latex for UMix {}
+
 pub fn hex_f64(s: &str) -> f64 { f64::from_bits(u64::from_str_radix(s, 16).expect("hex f64")) }
 
 fn f<'a, It: Iterator<Item = &'a str>>(it: &mut It) -> f64 { hex_f64(it.next().expect("param")) }
@@ -141,6 +191,8 @@ pub fn parse<'a, It: Iterator<Item = &'a str>>(it: &mut It) -> Dyn
             parse_ops(it, &mut comp);
             b!(Loop::new(&label, iters, comp))
         },
+        "Inc2" => b!(UInc::new(2)), "Inc3" => b!(UInc::new(3)), "Inc4" => b!(UInc::new(4)),
+        "Mix" => b!(UMix { alpha: f(it) }),
         other => panic!("unknown gate token {}", other)
     }
 }
